@@ -3,6 +3,14 @@
 
 using namespace nano;
 
+#ifdef NANO_VERIF
+std::atomic<uint64_t>& nano::verif::rng_seed()
+{
+    static std::atomic<uint64_t> seed{0U};
+    return seed;
+}
+#endif
+
 rng_t nano::make_rng(seed_t seed)
 {
     if (seed)
@@ -11,6 +19,14 @@ rng_t nano::make_rng(seed_t seed)
     }
     else
     {
+#ifdef NANO_VERIF
+        // verification-only: replayable default seeding (0 = disabled), a fresh seed per call
+        if (verif::rng_seed().load(std::memory_order_relaxed) != 0U)
+        {
+            const auto next = verif::rng_seed().fetch_add(0x9E3779B97F4A7C15ULL, std::memory_order_relaxed);
+            return rng_t{static_cast<rng_t::result_type>((next >> 17U) | 1U)};
+        }
+#endif
         auto source = std::random_device{};
         return rng_t{static_cast<rng_t::result_type>(source())};
     }
